@@ -9,6 +9,7 @@ import TsVerif.C03.Relate
 import TsVerif.C03.Complete
 import TsVerif.C03.Cover
 import TsVerif.C03.Rename
+import TsVerif.C03.RawTable
 import TsVerif.C03.Judge
 /-!
 # C03 — A generated parser recognises exactly its grammar and builds its derivation
@@ -69,6 +70,15 @@ theorem driver_yield (tbl : Table) (toks : List Nat) (t : PTree) (h : run tbl to
   unfold run at h
   have := runLoop_yield tbl _ _ t h
   simpa [stackLeaves] using this
+
+/-- `small_table_lookup_first_group`: what a small state's record means — a symbol listed in a group
+(and in no earlier one) has that group's value.  `rawTie` compares this reading of the RAW rows the
+generator wrote with what the runtime's `ts_language_lookup` answers, for every (state, symbol) of
+every dumped table (violation `lookup-differs-from-raw-table`). -/
+theorem small_table_lookup_first_group (pre : List (Nat × List Nat)) (v : Nat) (syms : List Nat)
+    (post : List (Nat × List Nat)) (y : Nat) (hy : y ∈ syms) (hpre : ∀ g, g ∈ pre → y ∉ g.2) :
+    rawLookup (.small (pre ++ (v, syms) :: post)) y = v :=
+  smallLookup_hit pre v syms post y hy hpre
 
 /-- `check_sound`: a tree accepted by the executable checker is a derivation of the grammar. -/
 theorem check_sound (g : Grammar) (t : VNode) (h : checkDerivation g t = true) : Derives g t := by
